@@ -55,7 +55,8 @@ PROPERTIES = {
 }
 
 RULE = ("one evaluation = one schedule (list of thread ids) run on the real code through the sync-point hooks and on "
-        "the Lean model, or one TSan soak / lock probe; distinct_nontrivial = distinct (operation, number of threads, "
+        "the Lean model, or one TSan soak / lock probe; a `sig=` field gives the call signature (instantiation of "
+        "instance< Args...>()) every thread uses, ignored by the model; distinct_nontrivial = distinct (operation, number of threads, "
         "set of sync points passed, blocked seen, constructions, threads returned / sample classes) tuples")
 
 
@@ -172,10 +173,11 @@ def nontrivial_key(op, result):
         evs = frozenset(e.split(":", 1)[1] for e in kv.get("trace", "-").split(",") if ":" in e)
         if w[1] == "singleton":
             ids = kv.get("ids", "-").split(",")
-            return (w[1], w[2], evs, kv.get("built"), sum(1 for i in ids if i not in ("-", "")), kv.get("conflict"))
+            return (w[1], w[2], evs, kv.get("built"), sum(1 for i in ids if i not in ("-", "")), kv.get("conflict"),
+                    "mixed-signatures" if len(w) > 4 else "")
         smp = frozenset(":".join(s.split(":")[1:]) for s in kv.get("samples", "-").split(",") if ":" in s)
         return (w[1], w[2], evs, smp)
-    return (w[1], w[2] if len(w) > 2 else "", r[0])
+    return (w[1], w[2] if len(w) > 2 else "", r[0], "mixed-signatures" if any(x.startswith("sig=") for x in w) else "")
 
 
 def _driver_enum(args):
@@ -285,11 +287,104 @@ def delayed_constructor_cases():
     return cases
 
 
+SIG_SETS = [[0, 1], [1, 0], [1, 2], [0, 2], [0, 1, 2], [2, 1, 0], [0, 1, 1], [1, 0, 0]]
+
+
+def mixed_signature_schedule(rng, n, sigs):
+    """a schedule for `conc singleton <n> <sched> sig=...`: threads that race for the first access through DIFFERENT
+    instantiations of the member template Singleton<T>::instance< Args...>() (seeded/C20-4: a function-local static mutex
+    is one mutex per instantiation).  Random walk over the model's program counters (read1, lock, read2, construct, store,
+    unlock, read3) that (a) lets most threads pass the unlocked first check before anybody stores, (b) sends, while a
+    thread is in the locked part, a thread WITH ANOTHER SIGNATURE into lock() -- the harness really releases it there and
+    expects it not to come out (the model: `blocked`) --, and (c) never schedules another thread at `lock` between the
+    holder's unlock and the entry that lets that waiting thread take the mutex (the real mutex is already its own then)."""
+    R1, LOCK, R2, CONS, STORE, UNLOCK, R3, DONE = range(8)
+    pc = [R1] * n
+    cell = False
+    holder = pending = -1
+    sched = []
+    sg = lambda t: sigs[t % len(sigs)]
+    guard = 0
+    while any(x != DONE for x in pc) and guard < 40 * n + 40:
+        guard += 1
+        live = [t for t in range(n) if pc[t] != DONE]
+        reserved = [t for t in live if pc[t] == LOCK and holder < 0 and pending >= 0 and t != pending]
+        cand = [t for t in live if t not in reserved]
+        r = rng.random()
+        t = None
+        at_r1 = [t_ for t_ in cand if pc[t_] == R1]
+        if at_r1 and not cell and r < 0.55:
+            t = rng.choice(at_r1)                                  # (a)
+        elif holder >= 0 and pending < 0 and r < 0.8:
+            other = [t_ for t_ in cand if pc[t_] == LOCK and sg(t_) != sg(holder)]
+            if other:
+                t = rng.choice(other)                              # (b)
+        elif holder < 0 and pending >= 0 and r < 0.7:
+            t = pending
+        if t is None:
+            t = rng.choice(cand)
+        if rng.random() < 0.08:
+            sched.append(rng.choice([x for x in range(n) if pc[x] == DONE] + [n, n + 1]))     # stutter entry
+        sched.append(t)
+        if pc[t] == R1:
+            pc[t] = R3 if cell else LOCK
+        elif pc[t] == LOCK:
+            if holder >= 0:
+                if pending < 0:
+                    pending = t                                    # released into lock(), stays there
+            else:
+                holder = t
+                pc[t] = R2
+                if pending == t:
+                    pending = -1
+        elif pc[t] == R2:
+            pc[t] = UNLOCK if cell else CONS
+        elif pc[t] == CONS:
+            pc[t] = STORE
+        elif pc[t] == STORE:
+            cell = True
+            pc[t] = UNLOCK
+        elif pc[t] == UNLOCK:
+            holder = -1
+            pc[t] = R3
+        elif pc[t] == R3:
+            pc[t] = DONE
+    return sched
+
+
+def mixed_signature_cases(rng, quick):
+    """forced schedules + lock probes + TSan soaks with at least two different instance< Args...>() instantiations of
+    the same T; the model ignores the `sig=` field (one class-wide mutex), so its answer is the expectation"""
+    cases = [Case("probe-sig%d" % i, ["conc probe-lock sig=%s" % ",".join(map(str, sg))])
+             for i, sg in enumerate([[0, 1], [1, 0], [1, 2], [2, 0]])]
+    # the schedule of the defect, spelled out: both pass the first check, thread 0 takes the mutex, thread 1 (other
+    # signature) must wait in lock() until thread 0 has stored and unlocked, then sees the object under the mutex
+    for i, sg in enumerate([[0, 1], [1, 0], [1, 2]]):
+        cases.append(Case("sig-w%d" % i, ["conc singleton 2 0,1,0,1,0,0,0,1,0,0,1,1,1,1 sig=%s" % ",".join(map(str, sg))]))
+        # the same with the waiting thread scheduled after every step of the holder (in a tree in which it is NOT kept
+        # out it re-reads the cell before the holder has stored: second construction)
+        cases.append(Case("sig-x%d" % i, ["conc singleton 2 0,1,0,1,0,1,0,1,0,1,0,1,0,1,1,1,1 sig=%s" % ",".join(map(str, sg))]))
+    sizes = [2, 2, 2, 3, 3, 3, 4, 4, 2, 3, 8, 5] if quick else [2, 3, 4] * 20 + [5, 6, 8, 12, 16] * 4
+    for i, n in enumerate(sizes):
+        sg = rng.choice(SIG_SETS)
+        cases.append(Case("sig%d" % i, ["conc singleton %d %s sig=%s" % (
+            n, ",".join(map(str, mixed_signature_schedule(rng, n, sg))), ",".join(map(str, sg)))]))
+    rounds = 30 if quick else 200
+    for n, sg in ([(2, [0, 1]), (3, [1, 2]), (8, [0, 1, 2]), (16, [0, 1])] if quick else
+                  [(n, SIG_SETS[n % len(SIG_SETS)]) for n in range(2, 17)]):
+        cases.append(Case("soak-sig%d" % n, ["conc soak singleton %d %d sig=%s" % (n, rounds, ",".join(map(str, sg)))]))
+    return cases
+
+
 def generate(prop, tier, seed, scale=1):
     rng = random.Random("%s-%s" % (prop, seed))
     quick = tier == "quick"
     # decisive, cheap batches first (check.py stops collecting after 25 problems, tie-only differences included)
     yield "lock probe", [Case("probe%d" % i, ["conc probe-lock"]) for i in range(2)]
+    yield ("first access through at least two different instantiations of the member template instance< Args...>() of "
+           "the same T (instance(), instance( 32), instance( lvalue)): lock probes, forced schedules in which a thread with "
+           "another call signature is really sent into lock() while the mutex is held, TSan soaks"), \
+        mixed_signature_cases(random.Random("%s-%s-sig" % (prop, seed)), quick)
     yield ("managed thread: constructing thread delayed between thread creation and the end of the constructor, "
            "managed thread runs to completion, join, isActive()"), delayed_constructor_cases()
     rounds = 40 if quick else 400
